@@ -245,6 +245,8 @@ class NodeTr:
             return term
         if ty == "md":
             return "(truthy_md %s)" % term
+        if ty == "nat":
+            return "(negb (%s =? 0))" % term
         if ty == "optnat":
             return "(truthy_optnat %s)" % term
         if ty == ("list", "bool"):
@@ -287,7 +289,35 @@ class NodeTr:
             return "true" if facts[core] != neg else "false"
         return c
 
+    def len_test(self, e):
+        """`len(c) != 0`, `len(c) > 0`, `0 < len(c)`, `len(c) >= 1` ... -> (c, True); `len(c) == 0`, `len(c) < 1` ... -> (c, False):
+        for the sized containers the translator knows (list, deque, dict, set) this IS the truth value of c"""
+        if not (isinstance(e, ast.Compare) and len(e.ops) == 1):
+            return None
+        a, op, b = e.left, e.ops[0], e.comparators[0]
+        mirror = {ast.Lt: ast.Gt, ast.Gt: ast.Lt, ast.LtE: ast.GtE, ast.GtE: ast.LtE, ast.Eq: ast.Eq, ast.NotEq: ast.NotEq}
+        if type(op) not in mirror:
+            return None
+        kind = type(op)
+        if isinstance(a, ast.Constant):
+            a, b, kind = b, a, mirror[kind]
+        if not (isinstance(a, ast.Call) and isinstance(a.func, ast.Name) and a.func.id == "len" and len(a.args) == 1
+                and not a.keywords and isinstance(b, ast.Constant) and type(b.value) is int):
+            return None
+        table = {(ast.NotEq, 0): True, (ast.Gt, 0): True, (ast.GtE, 1): True,
+                 (ast.Eq, 0): False, (ast.LtE, 0): False, (ast.Lt, 1): False}
+        if (kind, b.value) not in table:
+            return None
+        return a.args[0], table[(kind, b.value)]
+
     def cond0(self, e, env, binds):
+        lt = self.len_test(e)
+        if lt is not None:
+            t, ty = self.ex(lt[0], env, binds)
+            if ty == "md" or isinstance(ty, tuple) and ty[0] in ("list", "dict"):
+                c = self.truthy(t, ty, e)
+                return c if lt[1] else "(negb %s)" % c
+            self.err("len() of a %s" % (ty,), e)
         if isinstance(e, ast.BoolOp):
             op = "&&" if isinstance(e.op, ast.And) else "||"
             parts = []
@@ -524,6 +554,8 @@ class NodeTr:
                 return self.isinstance_(e, env, binds)
             if f.id == "len" and len(e.args) == 1 and not e.keywords:
                 t, ty = self.ex(e.args[0], env, binds)
+                if ty == ("list", "bool"):
+                    self.err("len of a set that the model keeps as one flag per upstream (only its truth value is known)", e)
                 if isinstance(ty, tuple) and ty[0] in ("list", "dict") or ty == "md":
                     return ("(length %s)" % t, "nat")
                 self.err("len of a %s" % (ty,), e)
@@ -953,7 +985,9 @@ class NodeTr:
         """while self.<container>: body   -- fuel: one more than the length of the container at entry"""
         if s.orelse:
             self.err("while ... else", s)
-        name = self.self_attr(s.test)
+        lt = self.len_test(s.test)
+        subject = lt[0] if lt is not None and lt[1] else s.test       # `while len(self.<c>) > 0` is `while self.<c>`
+        name = self.self_attr(subject)
         if name is None or self.attr(name, s).kind != "field" or not isinstance(self.attr(name, s).ty, tuple):
             self.err("while loop on %s: only `while self.<container>` is supported" % ast.unparse(s.test), s)
         out = [self.src(s, ind)]
